@@ -308,6 +308,12 @@ class Result:
 
     def flag(self, prop, rule, detail, replay_payload):
         """A monitor rule tagged `prop` was false on an observed execution of the real code."""
+        if rule.split(":")[-1].startswith("harness-error"):
+            # a rule about the harness' own protocol (an event it should never have logged): a defect or a confusion of the
+            # tooling - usually a consequence of an earlier real violation in the same run - never a verdict about the code
+            if len(self.divergences) < 10:
+                self.divergences.append({"what": "harness protocol rule fired: " + rule, "detail": str(detail)[:300]})
+            return
         if prop != self.prop:
             self.other_flags.append({"property": prop, "rule": rule, "detail": str(detail)[:300]})
             return
